@@ -418,7 +418,109 @@ class Interp:
         self._hash_status[cls_name] = res
         return res
 
-    def call_func(self, func: Func, args: List[Any], kwargs: Dict[str, Any], self_val=None, depth=0):
+    # ---- decorators ---------------------------------------------------------------------
+    _TRANSPARENT_DECORATORS = {"property", "setter", "getter", "deleter", "staticmethod", "classmethod", "abstractmethod", "cached_property",
+                               "cache", "lru_cache", "wraps", "dataclass", "total_ordering", "overload", "final", "register"}
+
+    def _decorator_kinds(self, func):
+        """per decorator of `func`: 'ignore' (transparent for the value computed: property / staticmethod / caches of pure functions /
+        wraps ...), 'dispatch' (functools.singledispatch) or 'user' (anything else: applied as Python does)"""
+        kinds = getattr(func, "_deco_kinds", None)
+        if kinds is None:
+            kinds = []
+            for d in func.node.decorator_list:
+                base = d.func if isinstance(d, ast.Call) else d
+                last = (dotted(base) or ast.unparse(base)).split(".")[-1]
+                kinds.append("dispatch" if last in ("singledispatch", "singledispatchmethod") else
+                             "ignore" if last in self._TRANSPARENT_DECORATORS else "user")
+            func._deco_kinds = kinds
+        return kinds
+
+    @staticmethod
+    def _type_names(v):
+        """class names along the method resolution order of a value, for functools.singledispatch"""
+        if isinstance(v, bool):
+            return ["bool", "int", "Integral", "Number", "Hashable", "object"]
+        if isinstance(v, int):
+            return ["int", "Integral", "Number", "Hashable", "object"]
+        if isinstance(v, float):
+            return ["float", "Real", "Number", "Hashable", "object"]
+        if isinstance(v, str):
+            return ["str", "Sequence", "Collection", "Iterable", "Hashable", "object"]
+        if isinstance(v, SetVal):
+            return ["frozenset" if v.frozen else "set", "Set", "AbstractSet", "MutableSet", "Collection", "Iterable", "object"]
+        if isinstance(v, list):
+            return ["list", "List", "MutableSequence", "Sequence", "Collection", "Iterable", "object"]
+        if isinstance(v, tuple):
+            return ["tuple", "Tuple", "Sequence", "Collection", "Iterable", "Hashable", "object"]
+        if isinstance(v, dict):
+            return ["dict", "Dict", "MutableMapping", "Mapping", "Collection", "Iterable", "object"]
+        if v is None:
+            return ["NoneType", "None", "object"]
+        if isinstance(v, _Gen):
+            return ["generator", "Iterator", "Iterable", "object"]
+        return [type(v).__name__, "Hashable", "object"]
+
+    def _dispatch_target(self, func, args):
+        reg = getattr(func, "_sd_registry", None)
+        if reg is None:
+            reg = {}
+            body = func.cls.node.body if func.cls is not None and hasattr(func.cls, "node") else func.module.tree.body
+            for st in body:
+                if not isinstance(st, (ast.FunctionDef, ast.AsyncFunctionDef)) or st is func.node:
+                    continue
+                for d in st.decorator_list:
+                    base = d.func if isinstance(d, ast.Call) else d
+                    if dotted(base) != f"{func.name}.register":
+                        continue
+                    impl = Func(st.name, st, func.module, func.cls)
+                    if isinstance(d, ast.Call) and d.args:
+                        tnames = [ast.unparse(a) for a in d.args]
+                    else:
+                        ps = st.args.posonlyargs + st.args.args
+                        ps = ps[1:] if func.cls is not None and ps else ps
+                        ann = ps[0].annotation if ps else None
+                        if ann is None:
+                            raise Uninterpretable(f"singledispatch registration of {st.name} without a type")
+                        tnames = [ast.unparse(x) for x in (ann.slice.elts if isinstance(ann, ast.Subscript) and dotted(ann.value) in ("Union", "typing.Union") and isinstance(ann.slice, ast.Tuple) else [ann])]
+                    for tn in tnames:
+                        reg[tn.split(".")[-1].split("[")[0]] = impl
+            func._sd_registry = reg
+        if not args:
+            raise Raised("TypeError", "singledispatch function requires at least 1 positional argument")
+        v = args[0]
+        if isinstance(v, Obj) and self.repo.has_cls(v.cls_name):
+            names = [k.name for k in self.repo.mro(self.repo.cls(v.cls_name))] + ["object"]
+        elif isinstance(v, EnumVal) and self.repo.has_cls(v.cls):
+            c = self.repo.cls(v.cls)
+            names = [k.name for k in self.repo.mro(c)] + [b.split(".")[-1] for b in c.bases] + ["Enum", "object"]
+        else:
+            names = self._type_names(v)
+        for nm_ in names:
+            if nm_ in reg:
+                return reg[nm_]
+        return func
+
+    def _call_decorated(self, func, args, kwargs, self_val, depth):
+        cache = self.__dict__.setdefault("_decorated", {})
+        hit = cache.get(id(func.node))
+        if hit is None or hit[0] is not func.node:
+            val = ("rawfn", func)
+            shell = Func("<decorators>", ast.parse("def f(): pass").body[0], func.module, func.cls)
+            denv = {}
+            if func.cls is not None:
+                for nm_ in func.cls.attrs:
+                    pass
+            for d, kind in reversed(list(zip(func.node.decorator_list, self._decorator_kinds(func)))):
+                if kind == "user":
+                    dv = self.eval(d, denv, shell, depth)
+                    val = self.apply(dv, [val], {}, shell, depth)
+            hit = cache[id(func.node)] = (func.node, val)
+        val = hit[1]
+        first = [] if func.cls is None or func.is_static else [self_val]
+        return self.apply(val, first + list(args), kwargs, func, depth)
+
+    def call_func(self, func: Func, args: List[Any], kwargs: Dict[str, Any], self_val=None, depth=0, _raw=False):
         Obj._it = self
         if COV is not None and depth == 0:
             DIRECT.add(func.qual)
@@ -426,6 +528,14 @@ class Interp:
             raise Uninterpretable(f"call depth exceeded at {func.qual}")
         if func.qual in self.hooks:
             return self.hooks[func.qual](self, self_val, args, kwargs)
+        if func.node.decorator_list and not _raw:
+            kinds = self._decorator_kinds(func)
+            if "dispatch" in kinds:
+                impl = self._dispatch_target(func, args)
+                if impl is not func:
+                    return self.call_func(impl, args, kwargs, self_val, depth + 1, _raw=True)
+            if "user" in kinds:
+                return self._call_decorated(func, args, kwargs, self_val, depth)
         env = {}
         params = list(func.pos_params)
         a = func.node.args
@@ -528,10 +638,18 @@ class Interp:
                 return self.call_func(m, [], {}, obj, depth + 1)
             if m is not None:
                 return ("bound", m, obj)
+            if obj.fields.get("__dataclass_fields__") is not None and name in ("_replace", "_asdict", "_fields"):
+                if name == "_fields":
+                    return tuple(obj.fields["__dataclass_fields__"])
+                return ("recordfn", name, obj)
             if self.repo.has_cls(obj.cls_name):
                 v = self.repo.lookup_attr(self.repo.cls(obj.cls_name), name)
                 if v is not None:
-                    return self.static_value(v, func, depth)
+                    val = self.static_value(v, func, depth)
+                    if isinstance(val, tuple) and len(val) == 2 and val[0] == "property":
+                        # `name = property(getter)` in the class body
+                        return self.apply(val[1], [obj], {}, func, depth)
+                    return val
             raise Raised("AttributeError", f"{obj.cls_name}.{name}")
         if isinstance(obj, ClassTok):
             if self.is_enum_class(obj.name):
@@ -764,6 +882,7 @@ class Interp:
                         break
         elif t is ast.While:
             n = 0
+            broke = False
             while self.truth(self.eval(st.test, env, func, depth)):
                 n += 1
                 if n > 10000:
@@ -771,9 +890,12 @@ class Interp:
                 try:
                     self.exec_block(st.body, env, func, depth)
                 except _Break:
+                    broke = True
                     break
                 except _Continue:
                     continue
+            if not broke and st.orelse:
+                self.exec_block(st.orelse, env, func, depth)
         elif t is ast.With:
             suppress = []
             for item in st.items:
@@ -827,7 +949,14 @@ class Interp:
                 nf = by_node.get(id(st))
                 if nf is None:
                     nf = by_node[id(st)] = Func(st.name, st, func.module, func.cls, func)
-            env[st.name] = ("closure", nf, env)
+            val_ = ("closure", nf, env)
+            if st.decorator_list:
+                for d_, kind_ in reversed(list(zip(st.decorator_list, self._decorator_kinds(nf)))):
+                    if kind_ == "user":
+                        val_ = self.apply(self.eval(d_, env, func, depth), [val_], {}, func, depth)
+                    elif kind_ == "dispatch":
+                        raise Uninterpretable("singledispatch on a nested function")
+            env[st.name] = val_
         elif t is ast.ImportFrom:
             # function-local import of repository names (used to dodge circular imports)
             modname = st.module or ""
@@ -909,7 +1038,9 @@ class Interp:
             return it.take()
         if isinstance(it, Obj) and it.fields.get("__namedtuple__"):
             return [it.fields[k] for k in it.fields["__dataclass_fields__"]]
-        if type(it).__name__ in ("list_iterator", "tuple_iterator", "generator", "dict_keyiterator", "set_iterator"):
+        if type(it).__name__ in ("list_iterator", "tuple_iterator", "generator", "dict_keyiterator", "set_iterator", "deque", "ChainMap", "OrderedDict",
+                                 "list_reverseiterator", "dict_valueiterator", "dict_itemiterator", "str_iterator", "str_ascii_iterator", "range_iterator",
+                                 "map", "filter", "zip", "enumerate", "reversed", "dict_reversekeyiterator", "odict_iterator", "_deque_iterator"):
             return list(it)
         if isinstance(it, Obj):
             m = self.method(it, "__iter__")
@@ -1162,6 +1293,8 @@ class Interp:
             if mod is not None and n.id in mod.imports and mod.imports[n.id][0] == "collections" and mod.imports[n.id][1] in ("ChainMap", "OrderedDict", "deque"):
                 import collections
                 return ("native", getattr(collections, mod.imports[n.id][1]))
+            if mod is not None and n.id in mod.imports and mod.imports[n.id] == ("dataclasses", "replace"):
+                return ("builtin", "dc_replace")
             if mod is not None and n.id in mod.imports and mod.imports[n.id] == ("dataclasses", "astuple"):
                 return ("builtin", "astuple")
             if mod is not None and n.id in mod.imports and mod.imports[n.id][0] in ("itertools", "functools") \
@@ -1191,7 +1324,7 @@ class Interp:
                                                "any", "all", "sorted", "reversed", "list", "tuple", "zip", "range",
                                                "enumerate", "set", "bool", "iter", "next", "repr", "dict", "frozenset", "hash", "slice", "staticmethod", "classmethod",
                                                "getattr", "hasattr", "object", "print", "id", "map", "filter", "divmod", "round",
-                                               "callable", "ord", "chr", "pow"):
+                                               "callable", "ord", "chr", "pow", "property"):
                 return ("builtin", n.id)
             if func is not None and _assigned_locally(func, n.id):
                 # a local name that some path assigns and this path reads unassigned: Python raises UnboundLocalError
@@ -1298,6 +1431,11 @@ class Interp:
             if isinstance(o, Obj):
                 m = self.method(o, "__getitem__")
                 if m is None:
+                    if o.fields.get("__namedtuple__") and isinstance(k, int) and not isinstance(k, bool):
+                        flds = o.fields["__dataclass_fields__"]
+                        if -len(flds) <= k < len(flds):
+                            return o.fields[flds[k]]
+                        raise Raised("IndexError", "tuple index out of range")
                     raise Raised("TypeError", "not subscriptable")
                 return self.call_func(m, [k], {}, o, depth + 1)
             if isinstance(o, ClassTok) and self.is_enum_class(o.name):
@@ -1305,8 +1443,13 @@ class Interp:
                 if k in mem:
                     return mem[k]
                 raise Raised("KeyError", str(k))
-            if type(o).__name__ == "Counter":
-                return o[k]
+            if type(o).__name__ in ("Counter", "ChainMap", "OrderedDict", "deque"):
+                try:
+                    return o[k]
+                except KeyError:
+                    raise Raised("KeyError", repr(k))
+                except IndexError:
+                    raise Raised("IndexError")
             if isinstance(o, dict):
                 for kk, vv in o.items():
                     if self.equals(kk, k, depth):
@@ -1607,8 +1750,15 @@ class Interp:
                 dict.__setitem__(env2, p, v)
             if m.node.args.vararg:
                 dict.__setitem__(env2, m.node.args.vararg.arg, tuple(args[len(params):]))
+            known_ = set(params) | {x_.arg for x_ in m.node.args.kwonlyargs}
+            extra_ = {}
             for k_, v in kwargs.items():
-                dict.__setitem__(env2, k_, v)
+                if m.node.args.kwarg and k_ not in known_:
+                    extra_[k_] = v
+                else:
+                    dict.__setitem__(env2, k_, v)
+            if m.node.args.kwarg:
+                dict.__setitem__(env2, m.node.args.kwarg.arg, extra_)
             dflt = m.node.args.defaults
             for p, d in zip(params[len(params) - len(dflt):], dflt):
                 if not dict.__contains__(env2, p):
@@ -1698,14 +1848,36 @@ class Interp:
                 raise Raised("KeyError")
             except (IndexError,):
                 raise Raised("IndexError")
+        if isinstance(f, tuple) and f and f[0] == "rawfn":
+            m = f[1]
+            if m.cls is not None and not m.is_static:
+                if not args:
+                    raise Raised("TypeError", f"{m.name}() missing 1 required positional argument: 'self'")
+                return self.call_func(m, list(args[1:]), kwargs, args[0], depth + 1, _raw=True)
+            return self.call_func(m, list(args), kwargs, None, depth + 1, _raw=True)
+        if isinstance(f, tuple) and f and f[0] == "recordfn":
+            _, what, rec = f
+            flds = rec.fields["__dataclass_fields__"]
+            if what == "_asdict":
+                return {k: rec.fields[k] for k in flds}
+            bad = [k for k in kwargs if k not in flds]
+            if bad:
+                raise Raised("ValueError" if rec.fields.get("__namedtuple__") else "TypeError", f"unexpected field names: {bad}")
+            new_ = Obj(rec.cls_name, **dict(rec.fields))
+            new_.fields.update(kwargs)
+            return new_
         if isinstance(f, tuple) and f and f[0] == "setfn":
             if not args:
                 return SetVal()
             return self.set_method(self._dedupe(self.iterate(args[0]), depth), f[1], args[1:], depth)
         if isinstance(f, tuple) and f and f[0] == "native":
             def wrap(a):
-                if isinstance(a, tuple) and a and a[0] in ("lambda", "closure", "bound"):
-                    return lambda *xs: self.apply(a, list(xs), {}, func, depth)
+                if isinstance(a, tuple) and a and a[0] in ("lambda", "closure", "bound", "builtin", "partial", "rawfn", "recordfn", "pymethod", "setfn"):
+                    return lambda *xs, **kw: self.apply(a, list(xs), kw, func, depth)
+                if isinstance(a, tuple) and len(a) == 2 and a[0] == "native" and callable(a[1]):
+                    return a[1]
+                if isinstance(a, ClassTok) and not self.is_enum_class(a.name):
+                    return lambda *xs, **kw: self.apply(a, list(xs), kw, func, depth)
                 if isinstance(a, ClassTok) and self.is_enum_class(a.name):
                     return self.iterate(a)
                 if isinstance(a, _Gen):
@@ -2024,6 +2196,13 @@ class Interp:
         if name == "methodcaller":
             mname, margs = args[0], list(args[1:])
             return ("native", lambda x: self.apply(self.getattr(x, mname, func, depth), margs, dict(kwargs), func, depth))
+        if name == "property":
+            return ("property", args[0] if args else kwargs.get("fget"))
+        if name == "dc_replace":
+            rec = args[0]
+            if not (isinstance(rec, Obj) and rec.fields.get("__dataclass_fields__") is not None):
+                raise Raised("TypeError", "replace() should be called on dataclass instances")
+            return self.apply(("recordfn", "_replace", rec), [], kwargs, func, depth)
         if name == "partial":
             f0, a0, k0 = args[0], list(args[1:]), dict(kwargs)
             return ("native", lambda *a, **k: self.apply(f0, a0 + list(a), {**k0, **k}, func, depth))
